@@ -389,6 +389,23 @@ fn kani_store_env(env: *mut Env) -> core::mem::ManuallyDrop<ContinuityStore> {
     };
     core::mem::ManuallyDrop::new(store)
 }
+// In-place construction (no by-value return): a struct returned by value from a helper is moved with a byte-wise copy
+// that CBMC does not constant-fold either (mutex state, map `items`, path lengths came back symbolic).
+macro_rules! mk_store {
+    ($env:expr) => {{
+        let (sender, receiver) = broadcast::channel(1);
+        core::mem::forget(receiver);
+        ContinuityStore {
+            data_dir: env_path($env),
+            workspace_root: PathBuf::new(),
+            event_log: Arc::new(rip_log::verif_kani::kani_event_log_at(env_path($env))),
+            stream_cache: crate::continuity_stream_cache::verif_kani::kani_cache_at(env_path($env)),
+            sender,
+            index: Mutex::new(ContinuityIndexV1::default()),
+            next_seq: Mutex::new(HashMap::new()),
+        }
+    }};
+}
 fn stub_workspace_key(_root: &Path) -> String {
     lit("w")
 }
@@ -726,6 +743,8 @@ struct StepEnv {
     log_seq: u64,
     log_stream_ok: bool,
     same_frame: bool,  // cache/broadcast saw the same seq as the log
+    table_at_log: u64, // value of the in-memory next-seq entry at the moment of the truth-log append
+    table: *const HashMap<String, u64>,
 }
 fn step_env_of(p: &Path) -> &mut StepEnv {
     unsafe { &mut *(p.as_os_str().as_encoded_bytes().as_ptr() as *mut StepEnv) }
@@ -752,6 +771,7 @@ fn step_log_append(this: &EventLog, event: &Event) -> io::Result<()> {
     env.log_at = env.effects;
     env.log_seq = event.seq;
     env.log_stream_ok = event.session_id.len() == 1 && event.session_id.as_bytes()[0] == b'p';
+    env.table_at_log = step_table_state(env).1;
     Ok(())
 }
 fn step_cache_append(this: &ContinuityStreamCache, event: &Event) {
@@ -769,21 +789,46 @@ fn step_send<T>(_this: &broadcast::Sender<T>, value: T) -> Result<usize, broadca
     Ok(0)
 }
 
-// NOTE on the append_* critical sections (C01 "lock held from seq choice to log write", C05 effect order): the
-// harness below (c05_append_step) is complete but NOT instantiated. HashMap<String,u64> probing (hashbrown SIMD groups
-// read back from a malloc'ed table) kept it from finishing (measured 700 s and 1200 s). The planned remedy -- a
-// one-entry model map stubbed in for HashMap::get/insert -- failed on the tool: Kani 0.68 accepts the generic `insert`
-// stub but rejects every formulation of the `get` stub (free fn: "Expected type &HashMap<K,V,S,A> ... found
-// &HashMap<K,V,S,A>"; trait method on a generic impl: "unable to find implementation"). Those clauses stay outside.
+// The append_* critical sections (C01 "lock held from seq choice to log write, advance only after success", C05
+// effect order). HashMap<String,u64> probing (hashbrown SIMD groups read back from a malloc'ed table) kept the first
+// versions of this harness from finishing (700 s, 1200 s), and Kani 0.68 rejects every formulation of a
+// `HashMap::get` stub. What works: only `HashMap::insert` is replaced -- by a model that records the inserted value in
+// the map's own (fixed-key, otherwise unused) RandomState words and never touches the table. The real table therefore
+// stays the empty singleton, the REAL `get` answers None immediately (items == 0), and the code under test takes its
+// "next seq not cached => recover it" path: exactly the first append after an authority restart. The steady-state
+// path (seq cached) shares everything after the seq choice with this one. Assumption: std's HashMap behaves as a map.
+fn model_slot<K, V, S, A: std::alloc::Allocator>(m: &std::collections::HashMap<K, V, S, A>) -> *mut (u64, u64) {
+    assert!(core::mem::size_of::<V>() == 8 && core::mem::size_of::<S>() == 16, "model map used for a table it does not model");
+    m.hasher() as *const S as *mut (u64, u64)
+}
+// words: .0 = number of inserts so far, .1 = last inserted value
+fn model_map_insert<K, V, S, A: std::alloc::Allocator>(this: &mut std::collections::HashMap<K, V, S, A>, k: K, v: V) -> Option<V> {
+    let slot = model_slot(this);
+    core::mem::forget(k);
+    unsafe {
+        (*slot).0 += 1;
+        core::ptr::write(core::ptr::addr_of_mut!((*slot).1) as *mut V, v);
+    }
+    None
+}
+fn model_map_state<K, V, S, A: std::alloc::Allocator>(m: &std::collections::HashMap<K, V, S, A>) -> (u64, u64) {
+    unsafe { *model_slot(m) }
+}
+fn step_table_state(env: &StepEnv) -> (u64, u64) {
+    // called from inside the effect stubs while the append holds the lock: the harness took the table's address
+    // (through a short lock) before the call
+    unsafe { model_map_state(&*env.table) }
+}
 macro_rules! c05_append_step {
     ($name:ident, $lagging:expr, $call:expr) => {
         #[kani::proof]
-        #[kani::unwind(6)]
+        #[kani::unwind(3)]
         #[kani::stub(std::fmt::format, stub_fmt_format)]
         #[kani::stub(std::hash::RandomState::new, stub_random_state_new)]
         #[kani::stub(uuid::Uuid::new_v4, stub_uuid_v4)]
         #[kani::stub(now_ms, stub_now_ms_sym)]
         #[kani::stub(alloc::string::ToString::to_string, stub_to_string_keep_thread)]
+        #[kani::stub(std::collections::HashMap::insert, model_map_insert)]
         #[kani::stub(ContinuityStore::replay_events, step_replay)]
         #[kani::stub(ContinuityStreamCache::try_read_last_seq, step_last_seq)]
         #[kani::stub(rip_log::EventLog::append, step_log_append)]
@@ -796,11 +841,14 @@ macro_rules! c05_append_step {
             let mut env = StepEnv {
                 hist: hist.as_mut_ptr(), hist_len: 2, store: core::ptr::null(),
                 sidecar_last: if $lagging { t - 1 } else { t }, sidecar_present,
-                effects: 0, log_at: 0, cache_at: 0, send_at: 0, log_seq: 0, log_stream_ok: false, same_frame: true,
+                effects: 0, log_at: 0, cache_at: 0, send_at: 0, log_seq: 0, log_stream_ok: false, same_frame: true, table_at_log: 0, table: core::ptr::null(),
             };
             let envp: *mut StepEnv = &mut env;
-            let store = kani_store_env(envp as *mut Env);
-            env.store = &*store as *const ContinuityStore;
+            let store = mk_store!(envp as *mut Env);
+            env.store = &store as *const ContinuityStore;
+            let mut store = store;
+            env.table = store.next_seq.get_mut().expect("seq mutex") as *const HashMap<String, u64>; // no lock taken
+            env.store = &store as *const ContinuityStore;
             let f: fn(&ContinuityStore) -> Result<String, String> = $call;
             let r = f(&store);
             assert!(r.is_ok(), "append refused on an existing thread");
@@ -809,9 +857,14 @@ macro_rules! c05_append_step {
             assert!(env.same_frame, "sidecar received a different frame than the truth log");
             assert!(env.log_stream_ok, "frame appended under another stream id");
             assert!(env.log_seq == t + 1, "first append after restart does not continue the numbering (duplicate or gap)");
+            assert!(env.table_at_log == env.log_seq, "the in-memory next seq was advanced BEFORE the truth-log append succeeded");
+            let (inserts, last) = unsafe { model_map_state(&*env.table) };
+            assert!(last == env.log_seq + 1, "in-memory next seq is not appended seq + 1 after a successful append");
+            kani::cover!(inserts == 2, "recovered seq cached, then advanced");
             kani::cover!(!env.sidecar_present, "next seq recovered from truth replay");
             kani::cover!(env.sidecar_present, "next seq recovered from the sidecar tail");
             core::mem::forget(r);
+            core::mem::forget(store);
         }
     };
 }
@@ -829,8 +882,10 @@ fn stub_to_string_keep_thread<T: core::fmt::Display + ?Sized>(t: &T) -> String {
     }
 }
 
-// (not instantiated, see the note above)
-// c05_append_step!(c05_append_message_insync, false, |s| s.append_message("p", lit("u"), lit("o"), lit("x")));
+// NOT INSTANTIATED. Measured three more times (600 s, 400 s at unwind 6 and 3): even with the insert-only model map the
+// mutex state and the table's `items` come back symbolic (Mutex::new / HashMap::new return by value; CBMC does not fold
+// through the byte-wise move), so `lock()` explores the contended path and the real `get` probes garbage buckets.
+// c05_append_step!(c01_append_message_step, false, |s| s.append_message("p", lit("u"), lit("o"), lit("x")));
 
 // C05 recovery obligation on the real next-seq discovery: after a restart the next seq of a thread must be
 // last-truth-seq + 1 whatever state the sidecar was left in. Truth: [created@s0, message@s1], seqs symbolic increasing.
@@ -851,7 +906,7 @@ macro_rules! c05_next_seq {
             let mut env = StepEnv {
                 hist: hist.as_mut_ptr(), hist_len: 2, store: core::ptr::null(),
                 sidecar_last: if $lagging { t - 1 } else { t }, sidecar_present,
-                effects: 0, log_at: 0, cache_at: 0, send_at: 0, log_seq: 0, log_stream_ok: false, same_frame: true,
+                effects: 0, log_at: 0, cache_at: 0, send_at: 0, log_seq: 0, log_stream_ok: false, same_frame: true, table_at_log: 0, table: core::ptr::null(),
             };
             let envp: *mut StepEnv = &mut env;
             let store = kani_store_env(envp as *mut Env);
@@ -887,7 +942,7 @@ fn c05_next_seq_lagging_sidecar() {
     let mut env = StepEnv {
         hist: hist.as_mut_ptr(), hist_len: 2, store: core::ptr::null(),
         sidecar_last: t - 1, sidecar_present: true,
-        effects: 0, log_at: 0, cache_at: 0, send_at: 0, log_seq: 0, log_stream_ok: false, same_frame: true,
+        effects: 0, log_at: 0, cache_at: 0, send_at: 0, log_seq: 0, log_stream_ok: false, same_frame: true, table_at_log: 0, table: core::ptr::null(),
     };
     let envp: *mut StepEnv = &mut env;
     let store = kani_store_env(envp as *mut Env);
